@@ -30,6 +30,14 @@ func writeReplay(u *Universe, st *SpecTables, d *Discharger, id string, o *Oblig
 		rep, ok := raceReplay(repo)
 		sb.WriteString("---- replay on the real code ----\n" + rep + "\n")
 		confirmed = ok
+	} else if o.Kind == "g1" {
+		rep, ok := probeProblem(st, repo, "/"+o.Where+" "+o.Note)
+		sb.WriteString("---- replay on the real code ----\n" + rep + "\n")
+		confirmed = ok
+	} else if o.Kind == "frame" && o.Decls != nil && o.Decls.Fn != nil && o.Decls.Fn.Pkg != nil {
+		rep, ok := purityProbe(repo, pkgDirOf(o.Decls.Fn))
+		sb.WriteString("---- replay on the real code ----\n" + rep + "\n")
+		confirmed = ok
 	} else if rep, ok := replayInstance(u, st, d, o, repo); rep != "" {
 		sb.WriteString("---- replay on the real code ----\n")
 		sb.WriteString(rep)
@@ -76,4 +84,25 @@ func replayCmd(args []string) int {
 	}
 	fmt.Print(string(b))
 	return 0
+}
+
+// probeProblem: a generation problem (construct outside the subset, unbound contract, ...) has no model; the generic
+// probes of the package it names are run to look for a failing input.
+func probeProblem(st *SpecTables, repo, problem string) (string, bool) {
+	var sb strings.Builder
+	hit := false
+	for alias, dir := range map[string]string{"v3m.": "v3/metric", "v2m.": "v2/metric", "rep.": "v3/report"} {
+		if !strings.Contains(problem, alias) && !strings.Contains(problem, "/"+dir+"/") {
+			continue
+		}
+		if dir != "v3/report" {
+			r, ok := decodeWitnessSearch(st, repo, dir)
+			sb.WriteString(r)
+			hit = hit || ok
+		}
+		r, ok := purityProbe(repo, dir)
+		sb.WriteString(r)
+		hit = hit || ok
+	}
+	return sb.String(), hit
 }
